@@ -335,6 +335,8 @@ def make_machine(max_n: int):
             size = 1 << self.sim.n
             if allow_none and data.draw(st.booleans()):
                 return None, size
+            if data.draw(st.integers(0, 7)) == 0:
+                return [], 0           # an empty subset is not 'all coalitions': the call must change nothing (set_known: forget everything)
             masks = data.draw(st.lists(st.integers(0, size - 1), min_size=1, max_size=size, unique=True))
             return masks, len(masks)
 
